@@ -3,6 +3,7 @@ import KoordVerif.Proofs.C07Ext
 import KoordVerif.Model.C07RO
 import KoordVerif.Model.C07Shape
 import KoordVerif.Proofs.C07Ext3
+import KoordVerif.Proofs.C07Ext6
 /-
 C07 — property theorems (DESIGN.md §4 C07).  All amounts are read value-wise: `drVal d minor k` is the
 amount of resource dimension `k` on device `minor`, a missing map entry or key counting as 0.
@@ -2125,5 +2126,125 @@ theorem owner_exceeds_reservation_counterexample :
     rsvOK ru = false ∧ drVal (unmatchedDiscount ru) 0 0 = 80 ∧ drVal s.used 0 0 = 130 ∧
     drVal (filterT s (some [0]) (unmatchedDiscount ru) []).free 0 0 = 50 ∧
     ¬ (drVal (calcFree s (unmatchedDiscount ru) []) 0 0 ≤ max 0 (drVal s.total 0 0 - 80)) := by decide
+
+/-! ### EXTENSION 6 — fillGPUTotalMem over a multi-GPU allocation on GPUs of DIFFERENT memory sizes (Model/C07Fill.lean)
+
+The amounts Reserve commits for the memory dimension the pod did not request are now part of the model (driver op `fill`,
+compared entry by entry with the implementation's filled allocation in the path and designated harnesses). -/
+
+/-- fillGPUTotalMem converts EVERY entry with the memory size of the device the entry is on -/
+theorem fill_entries_use_own_total (b2r : Int → Int → Int) (total : DevRes) (al out : List (Nat × RL))
+    (h : fillGPU b2r total al = some out) :
+    out = fillWith b2r (fun m => drVal total m 1) al := by
+  induction al generalizing out with
+  | nil => simp [fillGPU] at h; simp [fillWith, h]
+  | cons e rest ih =>
+    simp only [fillGPU] at h
+    split at h
+    · simp at h
+    · rename_i t ht
+      split at h
+      · simp at h
+      · split at h
+        · simp at h
+        · rename_i out' ho
+          have := ih out' ho
+          simp at h
+          subst h
+          simp [fillWith, drVal_of_get total e.1 1 t ht] at this ⊢
+          exact this
+
+/-- it fails exactly when some entry names a device that is unknown or zero (unhealthy) -/
+theorem fill_fails_iff_bad_device (b2r : Int → Int → Int) (total : DevRes) (al : List (Nat × RL)) :
+    fillGPU b2r total al = none ↔ ∃ e ∈ al, (drGet total e.1 = none ∨ rlIsZero (drGetD total e.1) = true) := by
+  induction al with
+  | nil => simp [fillGPU]
+  | cons e rest ih =>
+    simp only [fillGPU, List.mem_cons, exists_eq_or_imp]
+    cases hg : drGet total e.1 with
+    | none => simp
+    | some t =>
+      simp only [drGetD, hg, Option.getD_some]
+      by_cases hz : rlIsZero t = true
+      · simp [hz]
+      · simp only [hz]
+        cases hr : fillGPU b2r total rest with
+        | none =>
+          have := ih.mp hr
+          simp only [drGetD] at this
+          simp [this]
+        | some out =>
+          have : ¬ ∃ e ∈ rest, (drGet total e.1 = none ∨ rlIsZero (drGetD total e.1) = true) := by
+            intro hh; have := ih.mpr hh; simp [hr] at this
+          simp only [drGetD] at this
+          simp [this]
+
+/-- by ratio: the bytes charged are that share of THIS device's memory (whole bytes), the ratio is kept -/
+theorem fill_by_ratio (b2r : Int → Int → Int) (T r : Int) (req : RL) (h1 : rlAt req 1 = none) (h2 : rlAt req 2 = some r) :
+    rlVal (fillEntry b2r T req) 1 = r * T / 100 ∧ rlVal (fillEntry b2r T req) 2 = r ∧
+      rlAt (fillEntry b2r T req) 0 = rlAt req 0 := by
+  simp [fillEntry, h1, h2, rlVal, rlAt, qVal]
+
+/-- by ratio: never more than the device has, never more than the share (floor), a whole GPU is charged all of it -/
+theorem fill_by_ratio_bounds (T r : Int) (hT : 0 ≤ T) (hr0 : 0 ≤ r) (hr : r ≤ 100) :
+    0 ≤ r * T / 100 ∧ r * T / 100 ≤ T ∧ 100 * (r * T / 100) ≤ r * T ∧ (r = 100 → r * T / 100 = T) := by
+  have h0 : 0 ≤ r * T := Int.mul_nonneg hr0 hT
+  have h1 : r * T ≤ 100 * T := Int.mul_le_mul_of_nonneg_right hr hT
+  refine ⟨by omega, by omega, by omega, ?_⟩
+  intro h; subst h; omega
+
+/-- by bytes: the bytes are kept, the ratio is the conversion against THIS device's memory -/
+theorem fill_by_bytes (b2r : Int → Int → Int) (T b : Int) (req : RL) (h1 : rlAt req 1 = some b) (h2 : rlAt req 2 = none) :
+    rlVal (fillEntry b2r T req) 1 = b ∧ rlVal (fillEntry b2r T req) 2 = b2r b T ∧
+      rlAt (fillEntry b2r T req) 0 = rlAt req 0 := by
+  simp [fillEntry, h1, h2, rlVal, rlAt, qVal]
+
+/-- with the floor reading of the conversion a byte request is never charged more ratio than the bytes are of THIS device -/
+theorem fill_by_bytes_floor (T b : Int) (hT : 0 < T) :
+    b2rFloor b T * T ≤ 100 * b ∧ 100 * b < (b2rFloor b T + 1) * T := by
+  unfold b2rFloor
+  have h1 := Int.ediv_mul_le (b * 100) (Int.ne_of_gt hT)
+  have h2 := Int.lt_ediv_add_one_mul_self (b * 100) hT
+  constructor <;> omega
+
+/-- a requested dimension is never changed -/
+theorem fill_keeps_requested (b2r : Int → Int → Int) (T : Int) (c m r : Q) (k : Nat) (v : Int)
+    (h : rlAt [c, m, r] k = some v) : rlAt (fillEntry b2r T [c, m, r]) k = some v := by
+  cases m <;> cases r <;> simp_all [fillEntry, rlAt] <;>
+    (match k with
+     | 0 => simp_all [rlAt]
+     | 1 => simp_all [rlAt]
+     | 2 => simp_all [rlAt]
+     | _ + 3 => simp_all [rlAt])
+
+/-- where all devices of the allocation have the same memory size, looking the size up once is the same -/
+theorem fill_first_eq_on_equal_sizes (b2r : Int → Int → Int) (total : DevRes) (al : List (Nat × RL))
+    (T : Int) (h : ∀ e ∈ al, drVal total e.1 1 = T) :
+    fillFirst b2r total al = fillWith b2r (fun m => drVal total m 1) al := by
+  cases al with
+  | nil => simp [fillFirst, fillWith]
+  | cons e0 rest =>
+    simp only [fillFirst, fillWith]
+    apply List.map_congr_left
+    intro e he
+    rw [h e0 (by simp), h e he]
+
+/-- the fifth-round seeded change (memory size looked up once, from the first device) on GPUs of 16 and 32 units: a pod
+takes both GPUs whole by ratio; GPU 1 is charged 16 of its 32, keeps 16 phantom free, a byte request of 16 lands there and
+gpu-memory-ratio in use reaches 150 of 100.  As written (every entry against its own device) GPU 1 is charged 32 and the
+byte request finds nothing. -/
+theorem fill_first_device_total_counterexample :
+    let total : DevRes := [(0, [some 100, some 16, some 100]), (1, [some 100, some 32, some 100])]
+    let s0 := refreshT TState.empty total
+    let al : List (Nat × RL) := [(0, [none, none, some 100]), (1, [none, none, some 100])]
+    let byBytes : AllocReq := { req := [none, some 16, none], desired := 1, npcie := 0, required := [], preferred := [] }
+    fillGPU b2rFloor total al = some [(0, [none, some 16, some 100]), (1, [none, some 32, some 100])] ∧
+    fillFirst b2rFloor total al = [(0, [none, some 16, some 100]), (1, [none, some 16, some 100])] ∧
+    allocate (addT s0 1 [(0, [none, some 16, some 100]), (1, [none, some 32, some 100])]) byBytes = none ∧
+    (let s1 := addT s0 1 (fillFirst b2rFloor total al)
+     drVal s1.free 1 1 = 16 ∧ allocate s1 byBytes = some [1] ∧
+     (let s2 := addT s1 2 (fillFirst b2rFloor total [(1, [none, some 16, none])])
+      drVal s2.used 1 2 = 150 ∧ drVal s2.total 1 2 = 100)) := by
+  decide
 
 end KoordVerif.C07
